@@ -122,7 +122,7 @@ class Rec:
         """Vacuity guard: the path condition with all assumptions must be satisfiable."""
         m = ctx.model()
         if m is None:
-            if ctx.last_model_status == "unsat":
+            if getattr(ctx, "last_model_status", "") == "unsat":
                 self.vacuous += 1
             else:
                 self.inconclusive.append(f"{self.cfg.get('name')}: satisfiability of a path condition not confirmed (solver unknown)")
